@@ -83,6 +83,10 @@ Check (C10_rescore_exact :
 Check (C10_rediscovery_keeps :
   forall k s l victims,
   (forall a, In a l -> find a s <> None) -> insert_all k s l victims = (s, false)).
+Check (C10_additions_keep_scores :
+  forall k s l vs b z,
+  NoDup (keys s) -> (length s + length l <= cap k)%nat -> find b s = Some z ->
+  find b (fst (insert_all k s l vs)) = Some z /\ snd (insert_all k s l vs) = false).
 Check (C10_dial_order :
   forall limit s,
   let r := addresses limit s in
@@ -180,6 +184,28 @@ Check (C10_established_step :
               keys s' = keys s /\ forall b, b <> with_peer peer a -> find b s' = find b s) /\
   (forall q, q <> peer -> get q (bk st') = get q (bk st)) /\
   lst st' = lst st /\ held st' = held st /\ pubs st' = pubs st).
+Check (C10_dial_address_known_step :
+  forall c k st a res vs t q z0,
+  dial_addr_check c st a = DAOk t q -> find a (get_or_empty q (bk st)) = Some z0 ->
+  let sc := match res with Some e => error_score k e | None => sc_established k end in
+  sc <> 0%Z ->
+  let s := get_or_empty q (bk st) in
+  let st' := fst (step c k st (ODialAddr a res vs)) in
+  (exists s', get q (bk st') = Some s' /\ find a s' = Some sc /\ keys s' = keys s /\
+              forall b, b <> a -> find b s' = find b s) /\
+  (forall p, p <> q -> get p (bk st') = get p (bk st)) /\
+  lst st' = lst st /\ held st' = held st /\ pubs st' = pubs st).
+Check (C10_dial_address_new_step :
+  forall c k st a res vs t q,
+  dial_addr_check c st a = DAOk t q -> find a (get_or_empty q (bk st)) = None ->
+  (length (get_or_empty q (bk st)) < cap k)%nat ->
+  let sc := match res with Some e => error_score k e | None => sc_established k end in
+  sc <> 0%Z ->
+  let s := get_or_empty q (bk st) in
+  let st' := fst (step c k st (ODialAddr a res vs)) in
+  (exists s', get q (bk st') = Some s' /\ find a s' = Some sc /\ keys s' = keys s ++ [a] /\
+              forall b, b <> a -> find b s' = find b s) /\
+  (forall p, p <> q -> get p (bk st') = get p (bk st))).
 Check (C10_saturation :
   forall a b,
   in_i32 (sat_add a b) /\
